@@ -105,7 +105,7 @@ def scen_compare(ctx, M):
     adv_s = ctx.int('adv_s', -10 ** 7, 10 ** 7)
     # fractional second counts: secs + k/64 (a whole number of microseconds,
     # exactly representable as a float; negative ones via negative secs)
-    k64 = ctx.choice('frac64', [0, 32, 16, 1, 63])
+    k64 = ctx.choice('frac64', ctx.p.get('fracs') or [0, 32, 16, 1, 63])
     dt = mk_dt(ctx, t, off)
     t_utc = t - off if aware else t
     secs_us = secs * US + k64 * 15625
